@@ -338,7 +338,7 @@ fn map_label(label: &ironplc_dsl::diagnostic::Label, project: &dyn Project) -> l
 
         let mut end_line = start_line;
         let mut end_offset = start_offset;
-        for char in contents[label.location.start..label.location.start].chars() {
+        for char in contents[label.location.start..label.location.end].chars() {
             if char == '\n' {
                 end_line += 1;
                 end_offset = 0;
